@@ -220,12 +220,20 @@ PROPS = {
         "harness_cmd": ["rvb", "thermal --only C03"],
         "oracle_props": ["C03"],
         "property_files": ["C03.v"],
-        "expected_theorems": ["C03_rotation_balance", "C03_zero_ratio_never_accepted", "C03_acceptance_is_probability", "C03_composes"],
+        "expected_theorems": ["C03_rotation_balance", "C03_zero_ratio_never_accepted", "C03_acceptance_is_probability", "C03_composes",
+                              "C03_bondcontainer_insert_keeps_keys_distinct", "C03_bondcontainer_insert_lookup", "C03_bondcontainer_remove",
+                              "C03_bondcontainer_swap_remove_is_permutation", "C03_bondcontainer_total_after_remove",
+                              "C03_draw_probability", "C03_zero_weight_bond_never_drawn", "C03_toggle_positions_odd_multiplicity",
+                              "C03_region_size_law", "C03_region_size_is_distribution", "C03_sweep_keeps_operator_slots",
+                              "C03_sweep_count_unchanged", "C03_sweep_count_unchanged_on_tape"],
         "assumptions": [
-            "PARTIAL: rvb.rs (region search, boundary tracking, graph rewrite) is NOT transcribed into Gallina. The theorems are about the abstract move (flip a region, re-draw the n rotatable boundary operators among boundary bonds in proportion to their weight after the flip, accept with min(1,(W_after/W_before)^n)) and show that this acceptance balances the configuration weight. "
-            "That the implementation realises this move and leaves the thermal distribution invariant is decided by implementation-side oracles only: exact diagonalisation on frustrated / multi-edge / h != 0 models with automatic and explicit RVB, and structural checks after every RVB call",
+            "PARTIAL: rvb.rs / bondcontainer.rs / vec_help.rs are transcribed (Model/Rvb.v) and replayed on raw RNG words; component and structural theorems are proved about the transcription, the balance theorem about the abstract move. "
+            "That the transcribed region search realises the abstract move (detailed balance of the concrete program) is not proved; convergence is decided by exact diagonalisation on frustrated / multi-edge / h != 0 models with automatic and explicit RVB",
+            "the model reads the container through its scan specification (constant operators on a variable, operators touching the sub-variables in time order, state propagated up to p); the linked structure refines that specification (C11), and fill_args_at_p_with_hint / get_propagated_substate_with_hint / mutate_subsection_ops are thereby covered by the replay, not transcribed branch by branch",
+            "J, Gamma, h dyadic: all boundary-set totals are exact in f64; an acceptance value within 2^-40 of 1 that was not computed exactly is reported as indeterminate (the implementation may or may not draw a word)",
         ],
-        "trusted_base": ["exact diagonalisation oracle", "naive world-line / legality / bookkeeping checkers (harness/src/rvb.rs)"],
+        "trusted_base": ["Model/Rvb.v transcription validated by raw-tape replay (harness/src/rvb.rs)", "exact diagonalisation oracle",
+                         "naive world-line / legality / bookkeeping checkers (harness/src/rvb.rs)"],
     },
     "C04": {
         "harness_cmd": ["steps", "thermal --only C04"],
